@@ -83,4 +83,6 @@ contract("monkeytype.cli:apply_stub_handler", props=["C15", "C13", "C10"], theor
          },
          # a failed application leaves the file untouched
          ensures_exc={"exc:file-untouched": "forall(range_(len(old(effects())), len(effects())), lambda q: not is_write(nth(effects(), q)))"},
-         raises={"HandlerError": None, "ImportError": None, "OSError": None})
+         # the command fails only after a stub was obtained (import of the target module, file access, libcst): with nothing decodable it
+         # must say "No traces found" and succeed
+         raises={"HandlerError": "L_stub is not None", "ImportError": "L_stub is not None", "OSError": "L_stub is not None"})
